@@ -1001,6 +1001,7 @@ PROP.obligation('C08.scope-forwarding')(_c09.scope_forwarding)
 @PROP.obligation('C08.delete-keeps-spent', canaries=[
     mut.replace_expr(W, 'WalletTransaction.delete', 'DbTransactionInput.transaction_id != tx.id', 'DbTransactionInput.transaction_id == tx.id', 'the "spent elsewhere" test of delete() finds the inputs of the deleted transaction itself'),
     mut.replace_expr(W, 'WalletTransaction.delete', 'not spent_elsewhere', 'True', 'outputs spent by a deleted transaction are always unspent again'),
+    mut.replace_expr(W, 'WalletTransaction.delete', 'DbTransactionInput.output_n == inp.output_n', 'DbTransactionInput.output_n == inp.index_n', 'the other spend is looked up by the position of the input instead of the output number'),
 ])
 def delete_keeps_spent(ctx):
     """"An output consumed by a transaction the wallet has sent is never listed as unspent or selected again": WalletTransaction.delete
@@ -1039,7 +1040,9 @@ def delete_keeps_spent(ctx):
                         cands.append((qs, pol == 'F'))
             for qs, negated in cands:
                 preds = ' '.join(qs.filters) + ' ' + ' '.join('%s=%s' % kv for kv in qs.filter_by.items())
-                if 'DbTransactionInput' in ' '.join(qs.models) and 'prev_txid' in preds and 'output_n' in preds and 'transaction_id !=' in preds and negated:
+                same_outpoint = any(p_.replace(' ', '').endswith('.prev_txid') and 'DbTransactionInput.prev_txid==' in p_.replace(' ', '') for p_ in qs.filters) and \
+                    any('DbTransactionInput.output_n==' in p_.replace(' ', '') and p_.replace(' ', '').endswith('.output_n') for p_ in qs.filters)
+                if 'DbTransactionInput' in ' '.join(qs.models) and same_outpoint and 'transaction_id !=' in preds and negated:
                     ok = True
         ctx.saw('`%s` is guarded by %s; guarded by "no other input spends this outpoint": %s' % (norm(nd.ast), seen_guards, ok))
         ctx.require(ok, q, '`%s` is not guarded by a query for ANOTHER input of the wallet that spends the same outpoint (prev_txid, output_n, transaction_id != the deleted one)' % norm(nd.ast), nd.ast,
@@ -1067,3 +1070,7 @@ def update_default_account(ctx):
                 ctx.require(ok, 'wallets:' + name, '`%s` resolves the account for the constant network %s: the default-account rule does not apply to it' % (norm(c)[:60], norm(net) if net is not None else ''), c,
                             'Wallet.create(..., account_id=5); utxo_add(...): balance() is 0 and utxos() empty, utxos(account_id=0) lists the output of a key of account 5')
     ctx.floor(n, 10, 'calls of _get_account_defaults')
+
+
+from . import c10 as _c10
+PROP.obligation('C08.import-fields')(_c10.import_fields)
